@@ -122,7 +122,8 @@ def opaque_new(clsname):
     def new(engine, st, args, kwargs, node):
         st1, o = engine.new_object(st, clsname)
         # a third-party constructor may raise anything
-        yield st, Raised("<unknown>", where=f"{clsname}(...)")
+        if not (engine.spec_ctx or engine.spec_depth):
+            yield st, Raised("<unknown>", where=f"{clsname}(...)")
         yield st1, o
 
     return new
@@ -131,7 +132,8 @@ def opaque_new(clsname):
 def opaque_call(ret_type="Any", may_raise=True):
     def call(engine, st, *a):
         if may_raise:
-            yield st, Raised("<unknown>", where="third-party call")
+            if not (engine.spec_ctx or engine.spec_depth):
+                yield st, Raised("<unknown>", where="third-party call")
         f, sv = engine.fresh_of_type(ret_type, "ext")
         yield st.with_facts(f), sv
 
@@ -144,6 +146,10 @@ def install(engine):
         "class_attrs": {"from_path": lambda e: SV("func", ("py", lambda eng, st, args, kwargs, node: opaque_new("FluffConfig")(eng, st, args, kwargs, node)))},
         "methods": {"get": lambda eng, st, recv, args, kwargs, node: opaque_call("str", False)(eng, st)},
         "fields": {},
+    }
+    oc["BaseSegment"] = {
+        "fields": {"raw": "str", "raw_upper": "str", "type": "str", "segments": "list[BaseSegment]", "is_whitespace": "bool", "is_comment": "bool", "is_meta": "bool"},
+        "methods": {},
     }
     em = engine.ext_models
     em["os.environ.get"] = x_environ_get
